@@ -187,3 +187,70 @@ REGISTRY["C04"] = {
         K("c04::c04_selection_order_independent_1_2", "same with a 1-byte and a 2-byte rule (nested prefixes)", "same", RT, min_covers=3),
     ],
 }
+
+CV = ["lib/src/protocol/mux/converter.rs", "lib/src/protocol/mux/serializer.rs", "lib/src/protocol/mux/parser.rs"]
+TRACING_STUBS = ["tracing::__macro_support::__is_enabled -> false", "tracing_core::callsite::DefaultCallsite::register -> Interest::never", "tracing_core::event::Event::dispatch -> no-op"]
+REGISTRY["C14"] = {
+    "technique": "bounded model checking (Kani/CBMC, SAT) of the DATA/HEADERS emission arithmetic of H2BlockConverter, stream-id allocation and settings clamps",
+    "level_text": "CBMC decides, for every flow-control window (i32), every legal SETTINGS_MAX_FRAME_SIZE and every chunk length up to 2^30, that one DATA emission step of the real H2BlockConverter sends exactly min(len, window, max_frame_size) bytes, never more than either limit, decrements the window by exactly that, stalls iff the window is <= 0; that a header block is split into HEADERS+CONTINUATION frames each <= max_frame_size with END_HEADERS/END_STREAM on the right frames; that next_stream_id issues only legal, increasing, role-parity ids and stays exhausted; that advertised settings are clamped to RFC bounds and the emitted SETTINGS frame parses back. Bounded single steps, not a proof.",
+    "level_note": "One converter step at a time; the caller's min(stream, connection) window selection and window bookkeeping in ConnectionH2::write_streams, WINDOW_UPDATE handling, MAX_CONCURRENT_STREAMS enforcement and HPACK table size live in ConnectionH2 (HashMap + sockets) and are outside the claim.",
+    "rule": "C14: one harness per emission arm / allocator / clamp.",
+    "trusted_base": ["tracing (used by loona-hpack) switched off by three Kani stubs"],
+    "assumptions": ["max_frame_size in [16384, 2^24-1] (sozu validates the peer's SETTINGS_MAX_FRAME_SIZE before it reaches the converter)", "a chunk's (start,len) does not wrap u32 (it lives inside a kawa buffer)"],
+    "residual": "ConnectionH2::write_streams window selection (min of stream and connection window) and post-write decrement, handle_window_update_frame / update_initial_window_size overflow handling, queue_window_update coalescing, MAX_CONCURRENT_STREAMS, HPACK dynamic table size, replenishment policy over time.",
+    "obligations": [
+        K("c14::c14_data_budget_and_split", "window: all i32; max_frame_size: 16384..2^24-1; chunk (start,len) symbolic up to 2^30; one call; unwind 12",
+          "sent == min(len, max(window,0), max_frame_size); sent <= window and <= max_frame_size; window' == window - sent; nothing emitted iff window <= 0 and then the chunk is returned whole to the front; frame header == DATA/this stream/payload_len == queued bytes", CV, stubs=TRACING_STUBS, min_covers=5),
+        K("c14::c14_headers_split_small_frames", "10-byte header block (symbolic bytes), max_frame_size 3 and 4, END_STREAM symbolic; unwind 12",
+          "every HEADERS/CONTINUATION payload <= max_frame_size; concatenation == block; END_HEADERS only on the last, END_STREAM only on the first", CV, stubs=TRACING_STUBS),
+        K("c14::c14_headers_split_exact_and_larger", "same with max_frame_size 10 and 11 (single frame)", "same", CV, stubs=TRACING_STUBS),
+        K("c14::c14_stream_id_allocation", "all u32 watermarks, both roles, two successive calls; unwind 3",
+          "issued id <= 2^31-1, strictly increasing, parity by role from an even watermark, None is final", ["lib/src/protocol/mux/h2.rs"], min_covers=2),
+        K("c14::c14_connection_config_clamps", "all u32 triples / optional window; unwind 3",
+          "advertised connection window in [65535, 2^31-1], max concurrent streams in [1,10000], shrink ratio >= 2; in-range values kept", ["lib/src/protocol/mux/h2.rs"]),
+        K("c14::c14_settings_roundtrip", "all H2Settings values; unwind 10", "gen_settings output (57 bytes) parses back to the 8 (id,value) pairs sozu meant", CV + ["lib/src/protocol/mux/h2.rs"]),
+    ],
+}
+
+REGISTRY["C01"] = {
+    "technique": "bounded model checking (Kani/CBMC, SAT) of the byte-conservation kernels: DATA split, frame header codec, DATA unpadding, Readiness wake-up algebra",
+    "level_text": "CBMC decides that the kernels every proxied body byte passes through conserve bytes: the converter's DATA split partitions a chunk into emitted part + pushed-back remainder, adjacent, in order, nothing duplicated (all windows/frame sizes/lengths); the 9-byte frame header codec is a bijection (all headers); DATA frame parsing returns exactly payload minus padding (all flags/lengths, 0..20 bytes); arm_writable/signal_pending_write always leave the session runnable for write (all 8-bit readiness states). Kernel level only.",
+    "level_note": "Nothing here runs a Mux/ConnectionH2/Pipe with sockets: finalize_write, delay_close_for_frontend_flush, rustls write paths, socket partial-write loops, stream interleaving and kawa's H1 parser are outside the claim (heap-rich I/O state machines CBMC cannot hold).",
+    "rule": "C01: one harness per kernel.",
+    "trusted_base": ["tracing (used by loona-hpack) switched off by three Kani stubs"],
+    "assumptions": ["max_frame_size in [16384, 2^24-1]", "Readiness words carry only the four known bits (check_invariants)"],
+    "residual": "whole-session byte conservation: socket_write/socket_write_vectored loops, finalize_write, close-after-flush ordering, buffer pool sizing, H1 chunk serialisation (std formatting), all protocol pairings end to end.",
+    "obligations": [
+        K("c14::c14_data_budget_and_split", "window: all i32; max_frame_size: 16384..2^24-1; chunk (start,len) up to 2^30; unwind 12",
+          "emitted slice starts at the chunk start, remainder starts right after it and has length len - sent, remainder is pushed to the FRONT of the queue, later blocks keep their order", CV, stubs=TRACING_STUBS, min_covers=5),
+        K("c14::c01_frame_header_roundtrip", "all payload_len < 2^24, 10 frame types, all flags, all stream ids; unwind 6",
+          "wire layout exact; frame_header(gen_frame_header(h)) == h with the reserved bit cleared; only the stream-id parity rule can reject", CV, min_covers=2),
+        K("c15::c15_body_data", "DATA: symbolic payload_len/flags/stream id, 0..20 body bytes; unwind 6",
+          "payload slice == payload[pad byte .. len - pad]: padding never leaks into the body, no body byte dropped; END_STREAM mapped", PA, min_covers=3),
+        K("c14::c01_readiness_never_loses_writable", "all (event, interest) over the 4 known bits; unwind 3",
+          "after arm_writable the filtered readiness contains WRITABLE; signal_pending_write sets only the event bit; no other bit changes", ["lib/src/lib.rs"], min_covers=2),
+    ],
+}
+
+PK = ["lib/src/protocol/mux/pkawa.rs"]
+REGISTRY["C03"] = {
+    "technique": "bounded model checking (Kani/CBMC, SAT) of the H2->H1 header validation predicates against an RFC 9113 section 8.2 reference (differential, one-sided)",
+    "level_text": "CBMC decides, for every header name of 0..4 bytes and value of 0..3 bytes, that sozu's classify_invalid_h2_header rejects whenever a reference predicate written from RFC 9113/9110 says the field is unsafe to serialise as an HTTP/1.1 header line (empty/non-token/uppercase name, NUL/CR/LF/CTL/DEL in value, te != trailers); that the five connection-specific names are caught in every letter case; that the byte predicates equal the RFC character classes on all 256 bytes; that a conflicting Content-Length is refused without side effect; that host is accepted as matching :authority only for the same origin. Bounded, predicates only.",
+    "level_note": "The HTTP/1.1 side (kawa's H1 parser, CL/TE conflicts on H1 frontends), HPACK decoding (loona-hpack), pseudo-header ordering/uniqueness over kawa storage and DATA-vs-Content-Length reconciliation in ConnectionH2 are outside the claim.",
+    "rule": "C03: one harness per predicate family.",
+    "trusted_base": ["the 20-line reference predicates in kani/src/c03.rs (written from RFC 9110 section 5.6.2 tchar, RFC 9113 section 8.2.1/8.2.2)"],
+    "assumptions": ["host/authority without IPv6 literals in the host_matches_authority bound"],
+    "residual": "H1 request parsing and serialisation (kawa), HPACK, pseudo-header presence/uniqueness/order (store_pseudo_header over kawa Store), :path form, content-length vs DATA reconciliation, trailers.",
+    "obligations": [
+        K("c03::c03_header_gate_vs_rfc", "names 0..4 symbolic bytes, values 0..3 symbolic bytes; unwind 6",
+          "reference-unsafe => rejected (never the other way round); clean short lowercase tokens pass (non-vacuity)", PK, min_covers=3),
+        K("c03::c03_connection_specific_any_case", "connection / proxy-connection / transfer-encoding / upgrade / keep-alive under every per-letter case mask; unwind 19",
+          "each is recognised and rejected by the gate in any letter case; the name minus its last byte is not", PK),
+        K("c03::c03_name_byte_predicate_exact", "all 256 byte values; unwind 3", "is_tchar == RFC 9110 tchar; has_invalid_name_byte == !tchar or uppercase; pseudo-value predicate == CTL or DEL", PK),
+        K("c03::c03_pseudo_value_gate", "values of 0..4 symbolic bytes; unwind 6", "rejects iff some byte < 0x20 or == 0x7f (nothing that could break the H1 request line passes)", PK),
+        K("c03::c03_content_length_conflict", "any prior BodySize, any new length; unwind 3", "a different prior length => refused and body_size untouched; otherwise accepted and recorded", PK, min_covers=2),
+        K("c03::c03_host_authority_same_origin", "host and authority of 0..5 symbolic bytes, no '['; unwind 8",
+          "accepted => same host part case-insensitively and never two different explicit ports; strip_port returns a prefix and removes only ':digits'", PK, min_covers=2),
+        K("c03::c03_trim_ows_exact", "0..5 symbolic bytes; unwind 8", "result is the inner sub-slice without SP/HTAB at the ends; only whitespace is trimmed", PK),
+    ],
+}
